@@ -40,7 +40,7 @@ def run(ctx):
         'decimal mark . and , , both dialects) and replayed; P3: random sessions with listings. Displayed times (+-1 in the last '
         'digit), separator presence and gap are compared with Session!Step by TLC; exactly one second is judged only for '
         'float-exact time stamps.',
-        [('MC_Session_time.cfg', 'C16 times and separators')], sessions(ctx))
+        [('MC_Session_time.cfg', 'C16 times and separators', {'MaxLen': 4})], sessions(ctx))
 
 
 def replay(ctx, data):
